@@ -324,6 +324,8 @@ def _observe(case):
     kind = case["kind"]
     if kind == "dsread":
         return observe_dsread(case)
+    if kind == "titles":
+        return observe_titles(case)
     dt = case["dt"]
     if kind == "write":
         try:
@@ -440,6 +442,11 @@ def to_coq(case, obs):
         cobs = clist(["(mkNO %s %s %s [] %s %s)" % (DT_COQ[b["dt"]], cmatrix(b["rows"]), clist([ctext(l) for l in b["ns"]]),
                                                     copt(b["title"], ctext), copt(link, ctext)) for b in p])
         return "(NexusReadIn %s %s (nx_init [] %s false) %s (Ok %s))" % (lowtab(labs), tab, copt(obs["ntax0"], cz), ctoks(obs["tokens"]), cobs)
+    if case["kind"] == "titles":
+        if not obs["linked"]:
+            return TRIVIAL
+        et = clist(["(%s, %s)" % (ctext(k), ctext(v)) for k, v in obs["esc"]])
+        return "(TitleAssign %s %s (Ok %s))" % (et, ctoks(obs["labels"]), ctoks(obs["titles"]))
     kind, dt, fmt = case["kind"], case["dt"], case["fmt"]
     if kind == "write":
         if "route_err" in obs:
@@ -996,6 +1003,21 @@ def has_fresh(obs):
 def oracle(case, obs):
     if case["kind"] == "dsread":
         return None
+    if case["kind"] == "titles":
+        t = obs["titles"]
+        if not obs["linked"]:
+            if t or obs["links"]:
+                return ("TITLE / LINK written although block titles are off: %s" % t, "nexus-titles:written-when-off")
+            return None
+        if len(t) != len(obs["labels"]):
+            return ("%d blocks, %d TITLE statements" % (len(obs["labels"]), len(t)), "nexus-titles:count")
+        if len(set(t)) != len(t):
+            return ("blocks labelled %s are written with TITLEs %s: the same title twice (read back: %s)" % (obs["labels"], t, obs["back"]),
+                    "nexus-titles:not-distinct")
+        if obs["links"] != [t[i] for i in obs["want_links"]]:
+            return ("LINK TAXA statements %s, the blocks' namespaces are titled %s" % (obs["links"], [t[i] for i in obs["want_links"]]),
+                    "nexus-titles:link-differs")
+        return None
     if case["kind"] == "read":
         intent = case.get("intent")
         if intent is None:
@@ -1054,6 +1076,8 @@ def oracle(case, obs):
 def nontrivial(case, obs):
     if case["kind"] == "dsread":
         return isinstance(obs.get("parsed"), list)
+    if case["kind"] == "titles":
+        return obs["linked"] and len(obs["titles"]) >= 2
     if case["kind"] == "write":
         return "rows" in obs and len(obs["rows"]) >= 1 and not isinstance(obs.get("text"), dict)
     p = obs.get("parsed")
@@ -1065,6 +1089,13 @@ def nontrivial(case, obs):
 def count_case(ctx, case):
     if case["kind"] == "dsread":
         ctx.count("dsread:nexus:%d-namespaces" % len(case["ds"]["spaces"]))
+        return
+    if case["kind"] == "titles":
+        labs = [sp["label"] for sp in case["ds"]["spaces"]]
+        named = [l for l in labs if l]
+        ctx.count("titles:%d-namespaces" % len(labs))
+        if len(set(named)) != len(named):
+            ctx.count("titles:equal-namespace-labels")
         return
     ctx.count("%s:%s" % (case["kind"], case["fmt"]))
     ctx.count("dt:%s" % case["dt"])
@@ -1156,7 +1187,14 @@ def gen_cases(rng, tier):
                 and any(sp["mats"] for sp in pc["spaces"]) \
                 and all(md["dt"] != "standard" or True for sp in pc["spaces"] for md in sp["mats"]):
             dsreads.append({"kind": "dsread", "ds": pc, "block": rng.randrange(6)})
-    texts = texts + dsreads
+    titles = fixed_title_cases()
+    while len(titles) < (60 if tier == "quick" else 600):
+        pc = gen_pipeline(rng, tier)
+        if pc["p"] == "dataset" and pc["fmt"] == "nexus" and pc["wkw"].get("suppress_block_titles") is not True:
+            if rng.random() < 0.15:
+                pc["wkw"][rng.choice(["preserve_spaces", "unquoted_underscores"])] = True
+            titles.append({"kind": "titles", "ds": pc})
+    texts = texts + dsreads + titles
     if tier == "thorough":
         ex = exhaustive_cases()
         cases = cases + ex
@@ -1169,7 +1207,8 @@ def run(tier, seed, replay=None):
     ctx.assumptions = [
         "models coq/Model/C09Model.v (FASTA, PHYLIP: characters and lines) and C09Nexus.v (CHARACTERS/DATA block: tokens) are hand transcriptions; tied by this correspondence run",
         "state alphabets coq/Model/C09Alphabets.v are dumped from the imported library on every run",
-        "the NEXUS token layer (tokenizer, escape_nexus_token) is property C02's; here tokens are what the real tokenizer returns",
+        "the NEXUS token layer (tokenizer, escape_nexus_token) is property C02's; here tokens are what the real tokenizer returns, and escape_nexus_token is a function parameter of the title model (the harness tabulates the real function on the candidate titles of a case)",
+        "str(id(block)) (title of an unlabelled block) is an input of the title model",
         "NeXML and the XML text layer: exercised against the oracle only",
         "readers get a fresh TaxonNamespace; str.lower is an uninterpreted function in the theorems",
     ]
@@ -1215,7 +1254,11 @@ def run(tier, seed, replay=None):
               "admissible for the variant; (2) READ - the same texts, the same texts under other reader variants, and texts "
               "laid out by the harness (wrapped / interleaved pages / continuation lines / lower case / inner blanks / "
               "multistate tokens / MATCHCHAR / CRLF / wrong counts / unknown symbols / repeated names): parsed (labels, states) "
-              "or the error class must equal the reader model's; (3) oracle-only pipelines: NeXML (cells or seq markup), "
+              "or the error class must equal the reader model's; (2b) TITLES - data sets with 1-3 namespaces whose TAXA / CHARACTERS / "
+              "TREES blocks carry no label, EQUAL labels, labels escape_nexus_token alters (spaces, hyphens, quotes, brackets, "
+              "underscores; also with preserve_spaces / unquoted_underscores) or labels equal up to case: the TITLE statements "
+              "written must equal the model's assign_titles over the escaped-title map, be pairwise different, and every "
+              "LINK TAXA must name its namespace's TITLE; (3) oracle-only pipelines: NeXML (cells or seq markup), "
               "continuous matrices through NEXUS/PHYLIP/NeXML, data sets with 1-3 namespaces x matrices x tree lists written "
               "to NEXUS (suppress_block_titles default / False) and NeXML, symbol-less multistates. A case is non-trivial when "
               "it has at least one row and (write) the writer succeeded / (read) the reader delivered a matrix; distinct by full case content."))
@@ -1241,6 +1284,24 @@ def pick_ascii_labels(rng, n, spaced=True):
         if len(out) == n:
             break
     return out
+
+
+# labels of TAXA / CHARACTERS / TREES blocks: plain ones, ones escape_nexus_token alters (spaces ->
+# underscores; hyphens, quotes, brackets, underscores -> quoted), and case variants of each other
+BLOCK_LABELS = ["ns", "NS", "field taxa", "Field Taxa", "in-group", "In-Group", "it's", "a_b", "A_B", "a b", "x (1)", "p.1", "p",
+                "out group;", "q:r", "TAXA", "taxa"]
+
+
+def pick_block_label(rng, i, plain, prior):
+    """a block label: none, a plain one, one of the pool, or (often) the label of an earlier block"""
+    k = rng.random()
+    if prior and k < 0.35:
+        return rng.choice(prior)
+    if k < 0.5:
+        return rng.choice(BLOCK_LABELS)
+    if k < 0.65:
+        return None
+    return rng.choice(plain)
 
 
 def gen_pipeline(rng, tier):
@@ -1274,7 +1335,8 @@ def gen_pipeline(rng, tier):
         # a data set: 1-3 namespaces, each with matrices and tree lists
         nns = rng.randint(1, 3)
         spaces = []
-        used = set()
+        prior = []
+        hard = rng.random() < 0.5        # block labels that collide / that escaping alters
         for i in range(nns):
             labs = [l for l in pick_ascii_labels(rng, rng.randint(2, 6)) if True]
             mats = []
@@ -1283,10 +1345,17 @@ def gen_pipeline(rng, tier):
                 nch = rng.randint(1, 12)
                 rows = gen_rows(rng, dt, len(labs), nch, "safe")
                 mats.append({"dt": dt, "rows": [[l, c] for l, (_x, c) in zip(labs, rows)],
-                             "label": rng.choice([None, "m%d_%d" % (i, j), "matrix %d" % j])})
+                             "label": (pick_block_label(rng, i, ["m%d_%d" % (i, j), "matrix %d" % j], prior) if hard
+                                       else rng.choice([None, "m%d_%d" % (i, j), "matrix %d" % j]))})
+                if mats[-1]["label"]:
+                    prior.append(mats[-1]["label"])
             trees = rng.random() < 0.5 and len(labs) >= 2
-            spaces.append({"label": rng.choice([None, "ns%d" % i, "taxa %d" % i, "TAXA"]), "labels": labs, "mats": mats,
-                           "trees": trees, "tree_label": rng.choice([None, "trees%d" % i])})
+            nl = (pick_block_label(rng, i, ["ns%d" % i, "taxa %d" % i], prior) if hard
+                  else rng.choice([None, "ns%d" % i, "taxa %d" % i, "TAXA"]))
+            tl = (pick_block_label(rng, i, ["trees%d" % i], prior + ([nl] if nl else [])) if hard
+                  else rng.choice([None, "trees%d" % i]))
+            prior += [x for x in (nl, tl) if x]
+            spaces.append({"label": nl, "labels": labs, "mats": mats, "trees": trees, "tree_label": tl})
         fmt = rng.choice(["nexus", "nexus", "nexml"])
         wkw = {}
         if fmt == "nexus":
@@ -1368,6 +1437,48 @@ def observe_dsread(case):
     return obs
 
 
+def title_lines(text, kw):
+    out = []
+    for l in text.split("\n"):
+        l = l.strip()
+        if l.upper().startswith(kw) and l.endswith(";"):
+            out.append(l[len(kw):-1])
+    return out
+
+
+def observe_titles(case):
+    """the TITLE / LINK statements of a written data set, as text, next to what _get_block_title is asked:
+    the labels of the blocks in the order they request a title (TAXA blocks, CHARACTERS blocks, TREES blocks;
+    an unlabelled block goes by str(id(block)), an input), and escape_nexus_token (C02's layer) on the candidates"""
+    from dendropy.dataio import nexusprocessing
+    dsc = case["ds"]
+    ds = build_dataset(dsc)
+    wkw = dsc["wkw"]
+    blocks = list(ds.taxon_namespaces) + list(ds.char_matrices) + list(ds.tree_lists)
+    labels = [b.label if b.label else str(id(b)) for b in blocks]
+    esc = {}
+    for l in labels:
+        for cand in [l] + ["%s.%d" % (l, i) for i in range(1, len(labels) + 2)]:
+            e = nexusprocessing.escape_nexus_token(cand, preserve_spaces=bool(wkw.get("preserve_spaces", False)),
+                                                   quote_underscores=not wkw.get("unquoted_underscores", False))
+            if e != cand:
+                esc[cand] = e
+    text = ds.as_string("nexus", **wkw)
+    nns = len(ds.taxon_namespaces)
+    sbt = wkw.get("suppress_block_titles")
+    obs = {"labels": labels, "esc": sorted(esc.items()), "text": text[:4000], "nns": nns,
+           "linked": (nns > 1) if sbt is None else (not sbt),
+           "titles": title_lines(text, "TITLE "), "links": title_lines(text, "LINK TAXA = "),
+           "want_links": [blocks.index(b.taxon_namespace) for b in blocks[nns:]]}
+    try:
+        import dendropy
+        dendropy.DataSet.get(data=text, schema="nexus")
+        obs["back"] = "ok"
+    except Exception as e:
+        obs["back"] = "%s: %s" % (type(e).__name__, str(e)[:200])
+    return obs
+
+
 def observe_pipeline(case):
     import dendropy
     warnings.simplefilter("ignore")
@@ -1433,6 +1544,9 @@ def observe_pipeline(case):
             obs["n_link"] = sum(1 for l in text.split("\n") if l.strip().upper().startswith("LINK "))
             obs["n_blocks"] = sum(1 for l in text.split("\n") if l.strip().upper().startswith("BEGIN "))
             obs["text"] = text[:6000]
+            if case["fmt"] == "nexus":
+                # the TAXA blocks' titles as the reader's tokenizer delivers them
+                obs["taxa_titles"] = [(tokenize(x) or [""])[0] for x in title_lines(text, "TITLE ")[:len(case["spaces"])]]
             try:
                 d2 = dendropy.DataSet.get(data=text, schema=case["fmt"])
             except Exception as e:
@@ -1539,10 +1653,13 @@ def oracle_pipeline(case, obs):
                             "nexus-block-titles:True-multi-no-warning")
                 return None
         if "err" in b:
-            labels = [sp["label"] for sp in case["spaces"] if sp["label"] is not None]
-            norm = [l.replace("_", " ").upper() for l in labels]
-            if case["fmt"] == "nexus" and len(set(norm)) != len(norm) and len(set(labels)) == len(labels):
-                return ("data set whose namespaces are labelled %s (equal up to case / underscore) is not read back: %s" % (labels, b.get("msg")),
+            labels = [sp["label"] for sp in case["spaces"]]
+            tt = obs.get("taxa_titles") or []
+            if case["fmt"] == "nexus" and len(set(tt)) != len(tt):
+                return ("data set whose namespaces are labelled %s is written with TAXA titles %s (the same title twice) and is not read back: %s"
+                        % (labels, tt, b.get("msg")), "dataset-nexus-unreadable:same-title-twice")
+            if case["fmt"] == "nexus" and len(set(x.upper() for x in tt)) != len(tt):
+                return ("data set whose namespaces are labelled %s (TAXA titles %s: different, equal up to case) is not read back: %s" % (labels, tt, b.get("msg")),
                         "dataset-nexus-unreadable:namespace-titles-equal-up-to-case")
             return ("data set with %d namespace(s) written as %s is not read back: %s" % (nns, tag, b.get("msg")),
                     "dataset-%s-unreadable:%s" % (tag, "multi" if nns > 1 else "single"))
@@ -1575,6 +1692,37 @@ def oracle_pipeline(case, obs):
     raise ValueError(p)
 
 
+EQUAL_LABEL_PROBES = ["ns", "field taxa", "in-group", "it's", "a_b", "x (1)", "TAXA"]
+
+
+def title_probe(labels, mat_labels=None, tree_labels=None, wkw=None):
+    """a data set whose namespaces (and matrices / tree lists) carry the given labels"""
+    spaces = []
+    for i, l in enumerate(labels):
+        labs = ["a%d" % i, "b%d" % i]
+        spaces.append({"label": l, "labels": labs, "trees": bool(tree_labels), "tree_label": tree_labels[i] if tree_labels else None,
+                       "mats": [{"dt": "dna", "label": mat_labels[i] if mat_labels else "m%d" % i,
+                                 "rows": [[x, [k % 4, (k + 1) % 4]] for k, x in enumerate(labs)]}]})
+    return {"kind": "titles", "ds": {"kind": "pipeline", "p": "dataset", "dt": "dna", "fmt": "nexus", "spaces": spaces,
+                                     "wkw": dict(wkw or {})}}
+
+
+def fixed_title_cases():
+    out = []
+    for lab in EQUAL_LABEL_PROBES:
+        out.append(title_probe([lab, lab]))
+        out.append(title_probe([lab, lab, lab], mat_labels=[lab, None, lab + ".1"], tree_labels=[lab, "t", None]))
+        out.append(title_probe([lab, lab], wkw={"suppress_block_titles": False}))
+    out.append(title_probe(["field taxa", "field taxa"], wkw={"preserve_spaces": True}))
+    out.append(title_probe(["a_b", "a_b", "a b"], wkw={"unquoted_underscores": True}))
+    out.append(title_probe(["a b", "a_b", "'a b'"]))
+    out.append(title_probe(["p", "p", "p.1", "p.1"]))
+    out.append(title_probe([None, None, "ns"], mat_labels=[None, None, None]))
+    out.append(title_probe(["ns", "NS", "Ns"]))
+    out.append(title_probe(["only"], wkw={"suppress_block_titles": False}))
+    return out
+
+
 def fixed_pipelines():
     """one deterministic probe per family, so that a listed finding reproduces on every run"""
     out = []
@@ -1602,6 +1750,14 @@ def fixed_pipelines():
     for l1, l2 in (("ns", "NS"), ("taxa 1", "Taxa_1")):
         out.append({"kind": "pipeline", "p": "dataset", "dt": "dna", "fmt": "nexus", "wkw": {}, "title_case": True,
                     "spaces": [dict(sp(0, ["a0", "b0"]), label=l1), dict(sp(1, ["a1", "b1", "c1"]), label=l2)]})
+    # namespaces with EQUAL labels: plain, and such that escape_nexus_token alters them
+    for lab in EQUAL_LABEL_PROBES:
+        for nns in (2, 3):
+            for sbt in (None, False):
+                out.append({"kind": "pipeline", "p": "dataset", "dt": "dna", "fmt": "nexus",
+                            "wkw": {} if sbt is None else {"suppress_block_titles": sbt},
+                            "spaces": [dict(sp(i, ["a%d" % i, "b%d" % i, "c%d" % i][:2 + (i % 2)]), label=lab,
+                                            **({"tree_label": lab} if i == 1 else {})) for i in range(nns)]})
     for lab in ("naïve", "a\"b", "x<y"):
         out.append({"kind": "pipeline", "p": "nexml-label", "dt": "dna", "fmt": "nexml", "label": lab, "wkw": {}})
     return out
